@@ -189,7 +189,17 @@ func VerifC17_ExpansionWhateverTheEntryPath() {
 		verif_Assume(gerr == nil)
 		newer := *rec
 		newer.LastAdvertisementTime = c06time(2)
+		if verif_Bool("newerRecordChangesTheContextualSet") {
+			// the same context ID, other content: the expansion follows the newer record
+			nxp := *xp
+			nxp.Contextual = []model.ContextualExtendedProviders{{
+				ContextID: xp.Contextual[0].ContextID, Override: !xp.Contextual[0].Override,
+				Providers: []peer.AddrInfo{{ID: "Z"}, {ID: pid}}, Metadatas: [][]byte{c17md("newCtxMetadata"), c17md("newCtxMainMetadata")},
+			}}
+			newer.ExtendedProviders = &nxp
+		}
 		src.rec = &newer
+		rec = &newer
 		verif_Assume(pc.Refresh(context.Background()) == nil)
 	}
 	res, err := pc.GetResults(context.Background(), pid, ctxID, md)
